@@ -96,6 +96,19 @@ uni_text = st.text(alphabet=st.characters(min_codepoint=4, blacklist_categories=
 # mostly nucleotides with a few arbitrary characters sprinkled in
 sprinkled = st.lists(st.one_of(st.text(alphabet=NUC, min_size=1, max_size=40), st.characters(min_codepoint=4, blacklist_categories=("Cs",))), max_size=30).map("".join)
 any_text = st.one_of(nuc_text, mixed_text, uni_text, sprinkled)
+
+
+def long_text(w):
+    """at least w characters (so that full windows exist), nucleotides with at most one foreign character"""
+    def put(t):
+        base, pos, ch = t
+        if not ch or not base:
+            return base
+        p = pos % len(base)
+        return base[:p] + ch + base[p + 1:]
+    return st.tuples(st.text(alphabet=NUC, min_size=w, max_size=w + 200), st.integers(0, 10_000), st.sampled_from(["", "", "N", "n", "-", "\u00e9"])).map(put)
+
+
 k_st = st.one_of(st.integers(1, 31), st.sampled_from([1, 2, 15, 16, 17, 30, 31]))
 
 
@@ -293,7 +306,7 @@ def drivers():
     return {
         "kmer-iterator": (st.fixed_dictionaries({"seq": any_text, "k": k_st}), 0.22),
         "to-acgt": (k_st.flatmap(lambda k: st.fixed_dictionaries({"k": st.just(k), "x": st.one_of(st.integers(0, 4 ** k - 1), st.sampled_from([0, 4 ** k - 1]))})), 0.05),
-        "minimiser-iterator": (wm_st().flatmap(lambda wm: st.fixed_dictionaries({"seq": any_text, "w": st.just(wm[0]), "m": st.just(wm[1])})), 0.22),
+        "minimiser-iterator": (wm_st().flatmap(lambda wm: st.fixed_dictionaries({"seq": st.one_of(any_text, long_text(wm[0])), "w": st.just(wm[0]), "m": st.just(wm[1])})), 0.22),
         "oligo": (st.fixed_dictionaries({"seqs": batch_st(any_text), "k": st.integers(1, 6), "norm": st.booleans()}), 0.17),
         "cgr": (st.fixed_dictionaries({"seqs": batch_st(st.one_of(nuc_text, nuc_text, nuc_text, sprinkled)), "s": S_ST}), 0.17),
         "released-string": (wm_st().flatmap(lambda wm: st.fixed_dictionaries({"parts": st.lists(st.one_of(st.text(alphabet=NUC, min_size=1, max_size=60), sprinkled), min_size=1, max_size=12), "k": k_st, "w": st.just(min(wm[0], 40)).map(lambda w: max(w, wm[1])), "m": st.just(wm[1])})), 0.17),
